@@ -7,7 +7,8 @@ package main
 //   status_groups : per group the function, the mode in which kvElection.mu is certainly held, whether the function
 //                   is the constructor, whether the group lies behind `if e.isLeader.Load() { ... return }` inside the
 //                   same acquisition of kvElection.mu, and the values stored (literal true/false, the value of a
-//                   State* constant, own id / "" / anything for leaderID); an argument of another shape sets sg_unknown
+//                   State* constant, own id / "" / anything for leaderID, a parameter of the function / "" / anything for
+//                   token); an argument of another shape sets sg_unknown
 //   status_loads  : the loads of those fields inside kvElection.Status with the mode in which kvElection.mu is held
 //
 // Proofs/StatusInv.v proves from the boolean check of this table that "IsLeader is true exactly when State is LEADER,
@@ -21,7 +22,7 @@ import (
 	"strings"
 )
 
-var statusFields = map[string]bool{"isLeader": true, "state": true, "leaderID": true}
+var statusFields = map[string]bool{"isLeader": true, "state": true, "leaderID": true, "token": true}
 
 func genStatus(p *pkgInfo) string {
 	la, entryMust, _ := analyseLocks(p)
@@ -75,7 +76,7 @@ func genStatus(p *pkgInfo) string {
 	b.WriteString("Definition status_groups : list sgroup :=\n  [")
 	for gi, k := range order {
 		recs := groups[k]
-		var il, st, lid []string
+		var il, st, lid, tok []string
 		unknown := false
 		guard := true
 		mode := modeOf(recs[0])
@@ -103,6 +104,15 @@ func genStatus(p *pkgInfo) string {
 				} else {
 					unknown = true
 				}
+			case "token":
+				switch {
+				case a.arg == `""`:
+					tok = append(tok, "KEmpty")
+				case isParam(p, k.fn, a.arg):
+					tok = append(tok, "KParam") // the token the caller acquired the record with
+				default:
+					tok = append(tok, "KAny")
+				}
 			case "leaderID":
 				switch {
 				case a.arg == "e.cfg.InstanceID":
@@ -121,8 +131,8 @@ func genStatus(p *pkgInfo) string {
 		if gi > 0 {
 			b.WriteString(";\n   ")
 		}
-		fmt.Fprintf(&b, "mkSG %s %s %s %s %s [%s] [%s] [%s] %s", coqString(k.fn), coqString(recs[0].pos), mode, boolStr(ctorFuncs[fnBase]),
-			boolStr(guard), strings.Join(il, "; "), strings.Join(st, "; "), strings.Join(lid, "; "), boolStr(unknown))
+		fmt.Fprintf(&b, "mkSG %s %s %s %s %s [%s] [%s] [%s] [%s] %s", coqString(k.fn), coqString(recs[0].pos), mode, boolStr(ctorFuncs[fnBase]),
+			boolStr(guard), strings.Join(il, "; "), strings.Join(st, "; "), strings.Join(lid, "; "), strings.Join(tok, "; "), boolStr(unknown))
 	}
 	b.WriteString("].\n\nDefinition status_loads : list (string * string * option lmode) :=\n  [")
 	for i, a := range loads {
@@ -133,6 +143,25 @@ func genStatus(p *pkgInfo) string {
 	}
 	b.WriteString("].\n")
 	return b.String()
+}
+
+// isParam: name is a parameter of the function fn (closures inside fn share its parameters).
+func isParam(p *pkgInfo, fn, name string) bool {
+	if i := strings.Index(fn, "$"); i >= 0 {
+		fn = fn[:i]
+	}
+	fd, ok := p.funcs[fn]
+	if !ok || fd.Type.Params == nil {
+		return false
+	}
+	for _, prm := range fd.Type.Params.List {
+		for _, nm := range prm.Names {
+			if nm.Name == name {
+				return true
+			}
+		}
+	}
+	return false
 }
 
 func init() { register("GenStatus.v", genStatus) }
